@@ -1027,6 +1027,69 @@ func (p *pkg) commitPathFlows() []flowFact {
 	return out
 }
 
+// ---- tags nobody emits ---------------------------------------------------------------------------------------------
+
+// unemitted: merger tags that are referenced nowhere outside enums.go, their merger constructor and their addStat
+// case — no contract, no chain code and no event constructor can emit them.
+func unemitted(gosrc string, ms []merger) []string {
+	count := map[string]int{}
+	for _, m := range ms {
+		count[m.tag] = 0
+	}
+	evdir := filepath.Join(gosrc, "smartcontract/dbs/event")
+	err := filepath.Walk(gosrc, func(path string, info os.FileInfo, err error) error {
+		if err != nil {
+			return err
+		}
+		if info.IsDir() {
+			return nil
+		}
+		if !strings.HasSuffix(path, ".go") || strings.HasSuffix(path, "_test.go") {
+			return nil
+		}
+		inEv := filepath.Dir(path) == evdir
+		if inEv && filepath.Base(path) == "enums.go" {
+			return nil
+		}
+		b, err := os.ReadFile(path)
+		if err != nil {
+			return err
+		}
+		for _, line := range strings.Split(string(b), "\n") {
+			if !strings.Contains(line, "Tag") {
+				continue
+			}
+			t := strings.TrimSpace(line)
+			if strings.HasPrefix(t, "//") {
+				continue
+			}
+			if inEv && (strings.Contains(line, "newEventsMerger[") || strings.Contains(line, "mergeAddProviderEvents[") || strings.HasPrefix(t, "case Tag")) {
+				continue
+			}
+			for tag := range count {
+				if i := strings.Index(line, tag); i >= 0 {
+					end := i + len(tag)
+					if end < len(line) && (line[end] == '_' || (line[end] >= 'a' && line[end] <= 'z') || (line[end] >= 'A' && line[end] <= 'Z') || (line[end] >= '0' && line[end] <= '9')) {
+						continue
+					}
+					count[tag]++
+				}
+			}
+		}
+		return nil
+	})
+	if err != nil {
+		die(token.NoPos, "%v", err)
+	}
+	var out []string
+	for _, m := range ms {
+		if count[m.tag] == 0 {
+			out = append(out, m.tag)
+		}
+	}
+	return out
+}
+
 // ---- emit sites -------------------------------------------------------------------------------------------------
 
 type emit struct {
@@ -1214,7 +1277,10 @@ func main() {
 		}
 		fmt.Fprintf(&b, "  (%s, %q, %v, %q, %q)%s\n", e.tag, e.typ, e.ptr, e.index, e.idxField, sep)
 	}
-	b.WriteString("]\n\n/-- the commit path: (site, callee, how the callee's error reaches the caller's error result) -/\n")
+	b.WriteString("]\n\n")
+	b.WriteString("/-- merger tags that nothing in the repository emits (no reference outside enums.go, the merger constructor and the addStat case) -/\n")
+	fmt.Fprintf(&b, "def unemittedTags : List Nat := [%s]\n\n", strings.Join(unemitted(gosrc, ms), ", "))
+	b.WriteString("/-- the commit path: (site, callee, how the callee's error reaches the caller's error result) -/\n")
 	b.WriteString("def errorFlow : List (String × String × ErrFlow) := [\n")
 	for i, f := range flows {
 		sep := ","
